@@ -62,11 +62,14 @@ class RealCon:
             return repr(conv(R(z) if isfloat else I(z)))
         sql2 = TOK.sub(sub, sql)
         try:
-            return self.con.execute(sql2, [conv(p) for p in params])
+            r = self.con.execute(sql2, [conv(p) for p in params])
         except sqlite3.OperationalError as e:
             if s.startswith('BEGIN') and 'locked' in str(e):
                 w.spin()
             raise
+        if s in ('COMMIT', 'ROLLBACK'):
+            w.event('sql', 'after ' + s, self)
+        return r
 
     def close(self):
         self.con.close()
@@ -108,6 +111,10 @@ class RealWorld(env.BaseWorld):
 
     # ---- clock: recorded readings t0, t1, ... (non-decreasing); beyond the record: the last one
     def time(self):
+        import sys as _sys
+        if _sys._getframe(1).f_code.co_name in ('_execute_with_retry', 'reset'):
+            # the 60 s deadlines of Cache._sql_retry and of the PRAGMA loop in Cache.reset: not a reading of the cache's clock (the wait is modelled by outcome, not by duration)
+            return 0.0
         if self.clock_fn is not None:
             return self.clock_fn()
         k = len(self.times)
@@ -216,7 +223,7 @@ class RealWorld(env.BaseWorld):
             expandvars=os.path.expandvars, dirname=os.path.dirname, basename=os.path.basename)
         osm.path = opm
         tm = types.SimpleNamespace(time=self.time, sleep=self.sleep, monotonic=self.time)
-        th = types.SimpleNamespace(local=lambda: env.Local(w), get_ident=lambda: w.tid, Thread=threading.Thread)
+        th = types.SimpleNamespace(local=lambda: env.Local(w), get_ident=lambda: w.tid, get_native_id=lambda: 70000 + w.tid, Thread=threading.Thread)
         self._bind_modules(sq, w_open, osm, opm, tm, th)
         import tempfile as _tf
         import shutil as _sh
